@@ -603,10 +603,12 @@ def check_op(built, op):
     if exp[0] == "novolume":
         if err == "AttributeError" or err is None:
             return None  # UnstructuredDomain has no volume factors: rejection is the documented behaviour
-        return (f"{label}: {err} on a domain without volume factors", dict(sig, kind="error", error=err))
+        dts = built.case["fields"][op["f"]]["dt"] if not multi else "m"
+        return (f"{label}: {err} on a domain without volume factors", dict(kind="error", error=err, dtype=dts))
     if err is not None:
         dts = built.case["fields"][op["f"]]["dt"] if not multi else "m"
-        return (f"{label} raised {err} on a valid call (dtype {dts})", dict(sig, kind="error", error=err, dtype=dts))
+        # one signature per (exception, dtype): the same defect surfaces through many methods (weight -> integrate ...)
+        return (f"{label} raised {err} on a valid call (dtype {dts})", dict(kind="error", error=err, dtype=dts))
     if exp[0] == "none":
         return None if res is None else (f"{label}: expected None", dict(sig, kind="value"))
     if exp[0] == "mvalue":
